@@ -422,32 +422,32 @@ func c05ArityCases(thorough bool) []*c05Case {
 type c05Src struct{ Name, Pre, TypeDecl, Cause string }
 
 var c05Srcs = []c05Src{
-	{"direct-val", "func (T§) M() {}\n", "type T§ struct{}"},
-	{"direct-ptr", "func (*T§) M() {}\n", "type T§ struct{}"},
-	{"embE-val", "type E§ struct{}\nfunc (E§) M() {}\n", "type T§ struct{ E§ }"},
-	{"embE-ptr", "type E§ struct{}\nfunc (*E§) M() {}\n", "type T§ struct{ E§ }"},
-	{"embPE-val", "type E§ struct{}\nfunc (E§) M() {}\n", "type T§ struct{ *E§ }"},
+	{"direct-val", "func (T§) M() {}\n", "type T§ struct{}", ""},
+	{"direct-ptr", "func (*T§) M() {}\n", "type T§ struct{}", ""},
+	{"embE-val", "type E§ struct{}\nfunc (E§) M() {}\n", "type T§ struct{ E§ }", ""},
+	{"embE-ptr", "type E§ struct{}\nfunc (*E§) M() {}\n", "type T§ struct{ E§ }", ""},
+	{"embPE-val", "type E§ struct{}\nfunc (E§) M() {}\n", "type T§ struct{ *E§ }", ""},
 	{"embPE-ptr", "type E§ struct{}\nfunc (*E§) M() {}\n", "type T§ struct{ *E§ }", "ptr-embed-promotion"},
-	{"embIface", "type K§ interface{ M() }\n", "type T§ struct{ K§ }"},
-	{"emb2-val", "type F§ struct{}\nfunc (F§) M() {}\ntype E§ struct{ F§ }\n", "type T§ struct{ E§ }"},
-	{"emb2-ptr", "type F§ struct{}\nfunc (*F§) M() {}\ntype E§ struct{ F§ }\n", "type T§ struct{ E§ }"},
+	{"embIface", "type K§ interface{ M() }\n", "type T§ struct{ K§ }", ""},
+	{"emb2-val", "type F§ struct{}\nfunc (F§) M() {}\ntype E§ struct{ F§ }\n", "type T§ struct{ E§ }", ""},
+	{"emb2-ptr", "type F§ struct{}\nfunc (*F§) M() {}\ntype E§ struct{ F§ }\n", "type T§ struct{ E§ }", ""},
 	{"emb2-E-PF-ptr", "type F§ struct{}\nfunc (*F§) M() {}\ntype E§ struct{ *F§ }\n", "type T§ struct{ E§ }", "ptr-embed-promotion"},
 	{"emb2-PE-F-ptr", "type F§ struct{}\nfunc (*F§) M() {}\ntype E§ struct{ F§ }\n", "type T§ struct{ *E§ }", "ptr-embed-promotion"},
-	{"embImp-val", "", "type T§ struct{ a.Impl }"},
-	{"embImp-E-ptr", "", "type T§ struct{ a.PImpl }"},
+	{"embImp-val", "", "type T§ struct{ a.Impl }", ""},
+	{"embImp-E-ptr", "", "type T§ struct{ a.PImpl }", ""},
 	{"embImp-PE-ptr", "", "type T§ struct{ *a.PImpl }", "ptr-embed-promotion"},
-	{"embAlias-E-val", "type E§ struct{}\nfunc (E§) M() {}\ntype AE§ = E§\n", "type T§ struct{ AE§ }"},
+	{"embAlias-E-val", "type E§ struct{}\nfunc (E§) M() {}\ntype AE§ = E§\n", "type T§ struct{ AE§ }", ""},
 	{"embPAlias-E-ptr", "type E§ struct{}\nfunc (*E§) M() {}\ntype AE§ = E§\n", "type T§ struct{ *AE§ }", "ptr-embed-promotion"},
-	{"none", "", "type T§ struct{}"},
-	{"wrongsig", "func (T§) M(int) {}\n", "type T§ struct{}"},
-	{"nonstruct-val", "func (T§) M() {}\n", "type T§ int"},
-	{"nonstruct-ptr", "func (*T§) M() {}\n", "type T§ int"},
-	{"functype-val", "func (T§) M() {}\n", "type T§ func()"},
-	{"defined-from-E", "type E§ struct{}\nfunc (E§) M() {}\n", "type T§ E§"},
-	{"defined-from-embedder", "type F§ struct{}\nfunc (F§) M() {}\ntype E§ struct{ F§ }\n", "type T§ E§"},
-	{"shadowed", "type E§ struct{}\nfunc (E§) M() {}\nfunc (T§) M(int) {}\n", "type T§ struct{ E§ }"},
-	{"ambiguous", "type E§ struct{}\nfunc (E§) M() {}\ntype F§ struct{}\nfunc (F§) M() {}\n", "type T§ struct{ E§; F§ }"},
-	{"named-ptr", "type E§ struct{}\nfunc (E§) M() {}\n", "type T§ *E§"},
+	{"none", "", "type T§ struct{}", ""},
+	{"wrongsig", "func (T§) M(int) {}\n", "type T§ struct{}", ""},
+	{"nonstruct-val", "func (T§) M() {}\n", "type T§ int", ""},
+	{"nonstruct-ptr", "func (*T§) M() {}\n", "type T§ int", ""},
+	{"functype-val", "func (T§) M() {}\n", "type T§ func()", ""},
+	{"defined-from-E", "type E§ struct{}\nfunc (E§) M() {}\n", "type T§ E§", ""},
+	{"defined-from-embedder", "type F§ struct{}\nfunc (F§) M() {}\ntype E§ struct{ F§ }\n", "type T§ E§", ""},
+	{"shadowed", "type E§ struct{}\nfunc (E§) M() {}\nfunc (T§) M(int) {}\n", "type T§ struct{ E§ }", ""},
+	{"ambiguous", "type E§ struct{}\nfunc (E§) M() {}\ntype F§ struct{}\nfunc (F§) M() {}\n", "type T§ struct{ E§; F§ }", ""},
+	{"named-ptr", "type E§ struct{}\nfunc (E§) M() {}\n", "type T§ *E§", ""},
 	{"T-iface-has", "", "type T§ interface{ M() }", "T-is-interface"},
 	{"T-iface-embeds", "type K§ interface{ M() }\n", "type T§ interface{ K§ }", "T-is-interface"},
 	{"T-iface-embeds-I", "", "type T§ interface{ I§; X() }", "T-is-interface"},
@@ -677,9 +677,9 @@ var c05ImpCfgs = []c05ImpCfg{
 	{Name: "alias", Target: c05Imp{"al", "ex.com/m/b"}, Method: "Mb",
 		Quals: []c05Qual{{"alias", "al", "-"}, {"original-name-of-aliased", "b", "unbound-declname+unbound-pathelt"}, {"own-package-name", "p", "ownname"}, {"unknown", "zz", "-"}}},
 	{Name: "blank", Target: c05Imp{"_", "ex.com/m/us"}, Method: "Mus",
-		Quals: []c05Qual{{"declared-name-of-blank", "us", "unbound-declname+unbound-pathelt"}, {"unknown", "zz", "-"}}},
+		Quals: []c05Qual{{"declared-name-of-blank", "us", "-"}, {"underscore", "_", "underscore-qualifier"}, {"unknown", "zz", "-"}}},
 	{Name: "dot", Target: c05Imp{".", "ex.com/m/dot"}, Method: "Mdot",
-		Quals:  []c05Qual{{"declared-name-of-dot", "dot", "unbound-declname+unbound-pathelt"}, {"none", "", "-"}},
+		Quals:  []c05Qual{{"declared-name-of-dot", "dot", "-"}, {"none", "", "-"}},
 		Inames: []c05Iname{{"exists", "DotI"}, {"misspelt", "DotImiss"}, {"non-interface-type", "DotS"}}},
 	{Name: "name-differs-yaml.v3", Target: c05Imp{"", "ex.com/m/yaml.v3"}, Method: "Myaml",
 		Quals: []c05Qual{{"declared-name", "yaml", "name-differs"}, {"own-package-name", "p", "ownname"}}},
